@@ -91,6 +91,12 @@ def run_property(prop, tier, seed, root):
     from props import PROPS
     cfg = PROPS[prop]
     t_start = time.time()
+    # import the tree under test first (before solvers, pools and contract modules): later imports of
+    # baseband/astropy inside the run were observed to turn their own deprecation warnings into errors
+    try:
+        import_repo(root)
+    except Exception:
+        traceback.print_exc()
     repo, interp, contracts = driver.load(root, cfg.get("modules"))
     by_name = {c.qualname: c for c in contracts}
     timeout_ms = 10000 if tier == "quick" else 60000
@@ -167,6 +173,8 @@ def run_property(prop, tier, seed, root):
     n_per = cfg.get("bounded_per_instance", {"quick": 4, "thorough": 40})[tier]
     if not errors:
         pb = pb or import_repo(root)
+        warnings.resetwarnings()
+        warnings.simplefilter("ignore")      # libraries re-arm deprecation warnings as errors in places
         seen_inputs = set()
         for c in selected:
             if getattr(c, "no_bounded", False):
@@ -204,7 +212,9 @@ def run_property(prop, tier, seed, root):
                             out_findings.append(Finding(prop, "bounded", c.qualname, inst.label, f"bounded.{where}", detail))
         for fn in cfg.get("bounded_extra", []):
             try:
-                res = fn(pb, interp, rng, tier)
+                with warnings.catch_warnings():
+                    warnings.simplefilter("ignore")
+                    res = fn(pb, interp, rng, tier)
             except Exception as e:
                 errors.append(f"bounded_extra {fn.__name__}: {type(e).__name__}: {e}\n{traceback.format_exc()[-1500:]}")
                 continue
